@@ -160,9 +160,24 @@ def run(ctx, res):
                b'if (a) return\nx=1', b'if (a)--[[\n]] b=1\nc=2', b'a=1;;;b=2', b'a=b=c\n', b'a |= 1\n', b'?x,y\n', b'x=()', b'(f or g)(x)\n',
                b'a = (b or c).d\n', b'a=("s"):rep(2)\n', b'if (a) do b=1 end', b'if (a) then b=1 end', b'f{1}"x"[[y]]\n', b't={,}', b'',
                b'if #f(x) y=1\n', b'if (a)+f(x) y=1\n', b'if -(x) y=1\n', b'if f(x) y=1\n', b'if not (x) y=1\n', b'if (a) or (b) y=1\nz=2\n',
-               b'if t[(i)] y=1\n', b'if (a).b(c) y=1\n']
+               b'if t[(i)] y=1\n', b'if (a).b(c) y=1\n',
+               # long and deep programs: many branches, many statements, deep nesting of every bracket kind (no limit is part of the dialect)
+               b'if a then x=0\n' + b''.join(b'elseif a==%d then x=%d\n' % (k, k) for k in range(130)) + b'else x=-1 end\n',
+               b''.join(b'if c%d then\n' % k for k in range(90)) + b'y=1\n' + b'end\n' * 90,
+               b''.join(b'do ' for _ in range(120)) + b'z=1 ' + b'end ' * 120 + b'\n',
+               b'q=' + b'(' * 150 + b'1' + b')' * 150 + b'\n', b'w=' + b'{' * 100 + b'}' * 100 + b'\n', b'v=t' + b'[t' * 80 + b'[1]' + b']' * 80 + b'\n',
+               b''.join(b'function f%d() ' % k for k in range(70)) + b'return 0 ' + b'end ' * 70 + b'\n',
+               b''.join(b'a%d=%d ' % (k, k) for k in range(1500)) + b'\n', b'u=1' + b'+1' * 400 + b'\n', b'r=f' + b'(g' * 60 + b'()' + b')' * 60 + b'\n',
+               b'while a do ' * 40 + b'repeat ' * 40 + b'until b ' * 40 + b'end ' * 40 + b'\n', b'if (a) ' * 30 + b'x=1\n']
     for a in anchors:
         check_program(res, a, None, batch, 'anchor')
+        if len(a) > 200:
+            # the long and deep ones are plain valid programs: they must be accepted and consumed to their last token
+            out_, toks_, root_ = impl_parse(a)
+            nsig_ = [i for i, t in enumerate(toks_ or []) if type(t).__name__ not in ('TokSpace', 'TokNewline', 'TokComment')]
+            if not out_.startswith('ok') or (nsig_ and root_.end_pos < nsig_[-1] + 1):
+                res.fail('C08:long-program:' + hx(a)[:40], 'a long / deeply nested but valid program (%d bytes, starts %r) is %s' % (
+                    len(a), a[:40], 'rejected (%s)' % out_[:60] if not out_.startswith('ok') else 'not consumed to its end'), {'source': hx(a)})
     for _ in range(ctx.budget(400, 8000)):
         src = mutate(rng, gen_lua.gen_program(rng, style='spaced')[0])
         check_program(res, src, None, batch, 'malformed')
